@@ -286,6 +286,70 @@ def directed(ctx, collected):
                              "npos": 2}, collected)
 
 
+def repr_reentry(ctx):
+    """The message of an invariant violation shows `self` through the class' own __repr__; a __repr__ that uses public
+    members of the object is evaluated while the object is being checked. The same broken state must give the same
+    message whether the violation is found after the constructor, a sync method, an async method or an assignment, on
+    every instance and on every repetition - in particular no fallback rendering with a memory address."""
+    import icontract
+    from vf.progmodel.run import drive
+
+    @icontract.invariant(lambda self: self.amount >= 0, "amount-not-negative", check_on=icontract.InvariantCheckEvent.ALL)
+    class Account(icontract.DBC):
+        def __init__(self, owner, amount):
+            object.__setattr__(self, "owner", owner)
+            object.__setattr__(self, "amount", amount)
+
+        @property
+        def label(self):
+            return "%s:%d" % (self.owner, self.amount)
+
+        def describe(self):
+            return "Account(%s)" % self.label
+
+        def __repr__(self):
+            return self.describe()
+
+        def take(self, n):
+            object.__setattr__(self, "amount", self.amount - n)
+
+        async def atake(self, n):
+            object.__setattr__(self, "amount", self.amount - n)
+
+    def msg(fn):
+        try:
+            fn()
+            return "no violation"
+        except icontract.ViolationError as e:
+            return normalise(str(e))
+        except BaseException as e:  # noqa
+            return "%s: %s" % (type(e).__name__, e)
+
+    seen = {}
+    for rep in range(2):
+        for owner in ("ann", "bob"):
+            routes = {
+                "constructor": lambda: Account(owner, -5),
+                "sync method": lambda: Account(owner, 5).take(10),
+                "async method": lambda: drive(Account(owner, 5).atake(10)),
+                "assignment": lambda: setattr(Account(owner, 5), "amount", -5),
+            }
+            for route, fn in routes.items():
+                m = msg(fn)
+                ctx.case(["repr-reentry", rep, owner, route], True, sample={"route": route, "message": m[-200:]})
+                want = "self was Account(%s:-5)" % owner
+                if "0x" in m or want not in m:
+                    ctx.fail("repr-reentry|%s" % route, {"repr_reentry": route},
+                             "invariant violated through the %s: the message must show %r, got:\n%s" % (route, want, m))
+                    continue
+                key = (owner, route)
+                if key in seen and seen[key] != m:
+                    ctx.fail("repr-reentry|varies|%s" % route, {"repr_reentry": route}, "the message differs between repetitions:\n%s\n---\n%s" % (seen[key], m))
+                seen[key] = m
+        # the four routes agree on the value lines
+    ctx.count("repr_reentry_routes", 16)
+
+
 def run(ctx, tier, seed, shard, nshards):
     n = N_QUICK if tier == "quick" else N_THOROUGH
     collected = []
@@ -296,9 +360,16 @@ def run(ctx, tier, seed, shard, nshards):
 
     core.run_hypothesis(test, seed, n)
     if shard == 0:
+        repr_reentry(ctx)
+    if shard == 0:
         directed(ctx, collected)
     run_workers(ctx, collected)
 
 
 def replay(ctx, case):
+    if case.get("repr_reentry"):
+        before = ctx.evaluations
+        repr_reentry(ctx)
+        ctx.evaluations = before
+        return
     check_case(ctx, case, None)
